@@ -46,7 +46,7 @@ type stmtSliceContainerMatcher struct {
 func (c *matcherCompiler) compilePGoStmtList(slist *pgo.StmtList) Matcher {
 	var list []ast.Stmt
 	if len(slist.List) > 0 {
-		list = append(list, dotsStmt(c.patchStart))
+		list = append(list, dotsStmt(implicitDotsPos(c.patchStart)))
 		list = append(list, slist.List...)
 		list = append(list, dotsStmt(c.patchEnd))
 	}
@@ -132,7 +132,7 @@ type stmtSliceContainerReplacer struct {
 func (c *replacerCompiler) compilePGoStmtList(slist *pgo.StmtList) Replacer {
 	var list []ast.Stmt
 	if len(slist.List) > 0 {
-		list = append(list, dotsStmt(c.patchStart))
+		list = append(list, dotsStmt(implicitDotsPos(c.patchStart)))
 		list = append(list, slist.List...)
 		list = append(list, dotsStmt(c.patchEnd))
 	}
@@ -195,6 +195,18 @@ type stmtListField struct {
 
 	// Captured value of the field.
 	Value reflect.Value
+}
+
+// implicitDotsPos is the position given to the "..." that is implied in front
+// of the statements of a patch. Elisions are told apart by their position, so
+// it must not be the position of a "..." the user wrote: a patch whose first
+// line is a flush-left "..." has one exactly where the patch starts. The
+// position before it is the end of the "@@" line, where no code can be.
+func implicitDotsPos(patchStart token.Pos) token.Pos {
+	if patchStart > 1 {
+		return patchStart - 1
+	}
+	return patchStart
 }
 
 func dotsStmt(pos token.Pos) ast.Stmt {
